@@ -43,6 +43,8 @@ def all_true_assertions(cands, ballots, difficulty=None, total=None):
 def contradicts(a, order):
     """does assertion a (kind, w, l, E, ...) rule out the complete elimination order `order` (winner last)?"""
     kind, w, l, E = a[0], a[1], a[2], a[3]
+    if w not in order or (kind == "NEB" and l not in order):
+        return False   # an assertion about somebody who is not a candidate of this contest rules out none of its orders
     if kind == "NEB":
         return order.index(w) < order.index(l)
     i = order.index(w)
